@@ -187,7 +187,7 @@ Ahead ==
         /\ \E a \in Accepts : /\ apc[a] = "took" /\ ASide(a) = E.obj /\ AId(a) = E.a
                                /\ AcceptClose(a) /\ pre' = pre \cup {<<"mux.accept.closed", a, 1>>}
      \/ \* the dialer read the ack before the acceptor logged having written it
-        /\ E.ev = "mux.dial.ack" /\ E.b # 0 /\ E.g \in Dials /\ ackv[E.g] = 0
+        /\ E.ev = "mux.dial.ack" /\ E.b # 0 /\ E.g \in Dials /\ ackv[E.g] = -1
         /\ \E a \in Accepts : /\ apc[a] = "closed" /\ aconn[a] = E.g
                                /\ AcceptAck(a) /\ pre' = pre \cup {<<"mux.accept.ack", a, 1>>}
      \/ \* the dialer saw EOF before the goroutine that closed the stream logged it
